@@ -90,9 +90,13 @@ where
     let kn = kind_name::<K>();
     let bytes = key_bytes(key);
     let text = key.expose_key().to_string();
-    let re: Key<V<B>, K> = text.parse().map_err(|e| Fail::new(format!("C08/{name}/{kn}/text-roundtrip/rejected"), format!("own PASERK text does not parse: {e}")))?;
+    // the operations immediately before are rejected ones on the same back end (a wrong-key token,
+    // malformed keys): a key's own text must parse whatever was refused just before
+    crate::perturb::rejected_on(B::NAME);
+    let re: Key<V<B>, K> = text.parse().map_err(|e| Fail::new(format!("C08/{name}/{kn}/text-roundtrip/rejected"), format!("own PASERK text does not parse (right after rejected operations on this back end): {e}")))?;
     ensure!(key_bytes(&re) == bytes, format!("C08/{name}/{kn}/text-roundtrip/bytes-differ"), "serialise -> parse changes the key bytes");
     ensure!(re.expose_key().to_string() == text, format!("C08/{name}/{kn}/text-roundtrip/text-differs"), "re-serialised text differs");
+    crate::perturb::rejected_on(B::NAME);
     let kt = KeyText::<V<B>, K>::from_raw_bytes(&bytes);
     ensure!(kt.as_raw_bytes() == &bytes[..] && kt.to_string() == text, format!("C08/{name}/{kn}/keytext"), "KeyText raw bytes / text mismatch");
     let re2: Key<V<B>, K> = kt.try_into().map_err(|e| Fail::new(format!("C08/{name}/{kn}/raw-roundtrip/rejected"), format!("own raw bytes rejected: {e}")))?;
@@ -419,10 +423,13 @@ fn shapes<B: Backend>(seed: u64, tier: Tier) -> Vec<BytesCase> {
                 let junk = |n: usize, t: u64| rng::det_bytes(hash_of(k) ^ t, 0x1b, n);
                 for at in [0usize, 1, l / 2, 32.min(l), l - 1, l] {
                     for n in [1usize, 2, 16, 32] {
-                        let mut v = vb[..at].to_vec();
-                        v.extend(junk(n, (at * 64 + n) as u64));
-                        v.extend_from_slice(&vb[at..]);
-                        push(kind, format!("valid-key-with-insertion#at{at}+{n}"), v);
+                        // inserted bytes: random, and zeros / ones (zero-extension of big-endian integers)
+                        for (fname, fillv) in [("random", junk(n, (at * 64 + n) as u64)), ("zeros", vec![0u8; n]), ("ones", vec![0xffu8; n])] {
+                            let mut v = vb[..at].to_vec();
+                            v.extend(fillv);
+                            v.extend_from_slice(&vb[at..]);
+                            push(kind, format!("valid-key-with-insertion#at{at}+{n}-{fname}"), v);
+                        }
                     }
                     if at < l {
                         let mut v = vb[..at].to_vec();
